@@ -612,6 +612,14 @@ class Design(Elaboratable):
         self.subs = [_Sub(self, mod) for mod in mods]
         # relations are declared on the public objects, as a user would
         pr = {"L": Priority.LEFT, "R": Priority.RIGHT, "U": Priority.UNDEFINED}
+
+        def declare_rdep():
+            for b in spec["bodies"]:
+                if b.get("rdep"):
+                    self.obj[b["rdep"]].schedule_before(self.obj[b["name"]])
+
+        if spec.get("rdep_first"):
+            declare_rdep()
         for rel in spec.get("rels", []):
             if rel[0] == "sb":
                 self.obj[rel[1]].schedule_before(self.obj[rel[2]])
@@ -625,9 +633,8 @@ class Design(Elaboratable):
                     alias.provide(end)
                     end = alias
                 self.obj[rel[1]].add_conflict(end, pr[rel[3]])
-        for b in spec["bodies"]:
-            if b.get("rdep"):
-                self.obj[b["rdep"]].schedule_before(self.obj[b["name"]])
+        if not spec.get("rdep_first"):
+            declare_rdep()
 
     def elaborate(self, platform):
         m = Module()
@@ -964,6 +971,7 @@ def gen_spec(
     allow_rels=False,
     allow_rdep=False,
     allow_nm=False,
+    rdep_bias=False,
     allow_mods=True,
     sched=None,
     max_space=512,
@@ -1213,17 +1221,36 @@ def gen_spec(
                     spec["rels"].append(["conf", ta, tb, q])
                     if not relations_ok(spec):
                         spec["rels"].pop()
-    if allow_rdep:
-        # Forwarder-style readiness: method b is ready only if an earlier body a runs (a.schedule_before(b))
-        for b in bodies:
-            if b["kind"] != "M" or draw(st.integers(0, 2)) != 0:
-                continue
-            a = draw(st.sampled_from(top))
-            if a == b["name"] or not an.reaching_transactions(a) or not an.reaching_transactions(b["name"]):
+    if allow_rdep and (rdep_bias or draw(st.integers(0, 1)) == 0):
+        # Forwarder-style readiness: method b is ready only if an earlier body a runs (a.schedule_before(b)); the two
+        # are reached by different transactions
+        cand = [
+            (a, b["name"])
+            for b in bodies
+            if b["kind"] == "M"
+            for a in top
+            if a != b["name"]
+            and an.deforder[a] < an.deforder[b["name"]]
+            and an.reaching_transactions(a)
+            and an.reaching_transactions(b["name"])
+            and not set(an.reaching_transactions(a)) & set(an.reaching_transactions(b["name"]))
+        ]
+        for _ in range(draw(st.integers(1, 2)) if cand else 0):
+            a, bn = draw(st.sampled_from(cand))
+            b = bodies_by_name[bn]
+            if b["rdep"]:
                 continue
             b["rdep"] = a
             if not relations_ok(spec):
                 b["rdep"] = None
+                continue
+            if allow_rels and draw(st.integers(0, 1 if rdep_bias else 2)) == 0:
+                # the same pair is additionally declared conflicting (a shared resource), on the same object
+                spec["rels"].append(["conf", a, bn, draw(st.sampled_from(["U", "L"]))])
+                if not relations_ok(spec):
+                    spec["rels"].pop()
+        # whether the ordering is declared before or after the explicit relations
+        spec["rdep_first"] = draw(st.booleans())
     an = analyze(spec)
     space = an.space()
     if space <= max_space:
